@@ -60,9 +60,12 @@ def main(tier, seed):
     docs = runner.parse_sources(FILES)
     # 1. differential validation of interpreter + library models in concrete mode
     rng = random.Random(seed)
-    cases = random_cases(rng, 200 if tier == 'quick' else 2000)
+    cases = []
+    for c in random_cases(rng, 200 if tier == 'quick' else 2000):
+        if c not in cases:
+            cases.append(c)
     nat = native(binp, cases)
-    agg = runner.explore_jobs(DRV[0], DRV[1], docs, [dict(c, len=len(c['topic'])) for c in cases], {'seed': seed}, 1, 120)
+    agg = runner.explore_jobs(DRV[0], DRV[1], docs, [dict(c, len=len(c['topic'])) for c in cases], {'seed': seed}, 1 if tier == 'quick' else min(8, runner.ncpu()), 120 if tier == 'quick' else 900)
     rep.absorb(agg)
     by = {json.dumps({'topic': r['job']['topic'], 'segment': r['job']['segment']}): r for r in agg['results']}
     for c, nres in zip(cases, nat):
